@@ -40,6 +40,8 @@ std::unique_ptr<NodeResult> ReadFileNode::evaluate(PSC::Context &ctx) {
         throw PSC::FileNotOpenError(token, ctx, filename.value);
     if (file->getMode() == PSC::FileMode::RANDOM)
         throw PSC::RuntimeError(token, ctx, "Attempting to use 'READFILE' on random file. Use 'GETRECORD' instead.");
+    if (file->getMode() != PSC::FileMode::READ)
+        throw PSC::RuntimeError(token, ctx, "File '" + filename.value + "' is not opened for reading");
 
     PSC::Variable *var = ctx.getVariable(identifier.value);
     if (var != nullptr && var->type != PSC::DataType::STRING)
